@@ -1,6 +1,7 @@
 package props
 
 import (
+	"bytes"
 	"encoding/json"
 	"fmt"
 	"testing"
@@ -24,6 +25,9 @@ type c07Case struct {
 	D    uint16      `json:"d"`
 	DBR  byte        `json:"dbr"`
 	Seed uint32      `json:"mem_seed"`
+	// CloneFrom/CloneTo: ops[CloneFrom:CloneTo] are emitted into a Clone which is then appended back (0,0 = emit directly)
+	CloneFrom int `json:"clone_from,omitempty"`
+	CloneTo   int `json:"clone_to,omitempty"`
 }
 
 type c07Result struct {
@@ -38,7 +42,30 @@ func c07Check(c c07Case, res *c07Result) error {
 	p := &emPair{em: asm.NewEmitter(make([]byte, capacity), false), m: asmcat.NewModel(capacity, false, false)}
 	var initFlags byte
 	emitted := false
+	orig := p.em
+	useClone := c.CloneTo > c.CloneFrom && c.CloneTo <= len(c.Ops)
+	join := func() error {
+		var pan interface{}
+		func() {
+			defer func() { pan = recover() }()
+			orig.Append(p.em)
+		}()
+		if pan != nil {
+			return fmt.Errorf("Append of the clone failed: %v", pan)
+		}
+		p.em, p.lenBias = orig, 0
+		return nil
+	}
 	for i, o := range c.Ops {
+		if useClone && i == c.CloneFrom {
+			p.lenBias = orig.Len()
+			p.em = orig.Clone(make([]byte, capacity))
+		}
+		if useClone && i == c.CloneTo {
+			if err := join(); err != nil {
+				return err
+			}
+		}
 		pre := p.m.Flags
 		if err := p.step(i, o); err != nil {
 			return err
@@ -47,6 +74,14 @@ func c07Check(c c07Case, res *c07Result) error {
 			emitted = true
 			initFlags = pre // the widths the assembler was told to assume when the first instruction was emitted
 		}
+	}
+	if useClone && p.em != orig {
+		if err := join(); err != nil {
+			return err
+		}
+	}
+	if !bytes.Equal(p.em.Bytes(), p.m.Bytes) {
+		return fmt.Errorf("emitted image differs from the model at byte %d", firstDiff(p.em.Bytes(), p.m.Bytes))
 	}
 	code := append([]byte(nil), p.em.Bytes()...)
 	starts := p.m.InsStarts
@@ -258,6 +293,16 @@ func TestC07(t *testing.T) {
 				c := c07Case{Ops: c07Sanitize(ops, bank), A: uint16(rapid.IntRange(0, 3).Draw(t, "a")), X: rapid.Uint16().Draw(t, "x"), Y: rapid.Uint16().Draw(t, "y"),
 					S: rapid.SampledFrom([]uint16{0x01ff, 0x1fff, 0x0100}).Draw(t, "s"), D: rapid.SampledFrom([]uint16{0, 0x0100, 0x1234}).Draw(t, "d"),
 					DBR: rapid.SampledFrom([]byte{0x7f, 0x02, 0x40}).Draw(t, "dbr"), Seed: rapid.Uint32().Draw(t, "memseed")}
+				if len(c.Ops) > 1 && rapid.IntRange(0, 2).Draw(t, "via-clone") == 0 {
+					c.CloneFrom = rapid.IntRange(0, len(c.Ops)-1).Draw(t, "clone-from")
+					c.CloneTo = rapid.IntRange(c.CloneFrom+1, len(c.Ops)).Draw(t, "clone-to")
+					if c.CloneFrom == 0 && c.Ops[0].Kind == "setbase" {
+						c.CloneFrom = 1 // the base is set on the original
+					}
+					if c.CloneTo <= c.CloneFrom {
+						c.CloneFrom, c.CloneTo = 0, 0
+					}
+				}
 				var res c07Result
 				r.Check(t, "rapid", c, func() error { return c07Check(c, &res) })
 				// non-triviality: width-dependent immediate after a width change
@@ -288,6 +333,9 @@ func TestC07(t *testing.T) {
 				}
 				if bad {
 					ev.Class("history-with-refused-immediate")
+				}
+				if c.CloneTo > c.CloneFrom {
+					ev.Class("part-of-the-program-emitted-through-Clone+Append")
 				}
 				steps += int64(res.Steps)
 				raw, _ := json.Marshal(c)
